@@ -6,6 +6,7 @@ CONSTANT MaxRows = 1
 CONSTANT MaxTasks = 1
 CONSTANT SampleMod = 1
 CONSTANT SamplePick = 0
+CONSTANT PreModes = {"none", "all"}
 SPECIFICATION TraceSpec
 INVARIANT TraceConsumed
 CHECK_DEADLOCK FALSE
